@@ -1,2 +1,35 @@
-// ===================== canaries: every function here must FAIL to verify =====================
+// ===================== canaries: every function here must FAIL to verify (vacuity guard, checked on every run) =====================
+// (1) the verifier is alive
 pub proof fn canary_false() ensures false {}
+// (2) each precondition / postcondition relation used by the contracts is satisfiable: assuming it must not prove `false`
+pub proof fn canary_pre_bs_wf(bs: BoundSet) requires bs_wf(bs), bs_small(bs) ensures false {}
+pub proof fn canary_pre_rwf(r: Range) requires rwf(r), rsmall(r), r.0@.len() > 1 ensures false {}
+pub proof fn canary_pre_wf_partial(p: Partial) requires wf_partial(p), p.major is Some, p.minor is Some, p.patch is Some, p.pre_release@.len() > 0 ensures false {}
+pub proof fn canary_pre_wf_partial_wild(p: Partial) requires wf_partial(p), p.major is None ensures false {}
+pub proof fn canary_rel_binter(a: BoundSet, b: BoundSet, r: Option<BoundSet>) requires bs_wf(a), bs_wf(b), binter_post(a, b, r), r is Some ensures false {}
+pub proof fn canary_rel_binter_none(a: BoundSet, b: BoundSet, r: Option<BoundSet>) requires bs_wf(a), bs_wf(b), binter_post(a, b, r), r is None ensures false {}
+pub proof fn canary_rel_bdiff(a: BoundSet, b: BoundSet, r: Option<Vec<BoundSet>>) requires bs_wf(a), bs_wf(b), bdiff_post(a, b, r), r matches Some(vs) && vs@.len() == 2 ensures false {}
+pub proof fn canary_rel_rinter(a: Range, b: Range, r: Option<Range>) requires rwf(a), rwf(b), rinter_post(a, b, r), r is Some ensures false {}
+pub proof fn canary_rel_rdiff(a: Range, b: Range, r: Option<Range>) requires rwf(a), rwf(b), rdiff_post(a, b, r), r is Some ensures false {}
+pub proof fn canary_rel_rdiff_none(a: Range, b: Range, r: Option<Range>) requires rwf(a), rwf(b), a.0@.len() > 0, rdiff_post(a, b, r), r is None ensures false {}
+pub proof fn canary_rel_conj(s: Seq<Option<BoundSet>>, r: Seq<BoundSet>) requires conj_post(s, r), r.len() == 1, s.len() == 3 ensures false {}
+pub proof fn canary_rel_conj_empty(s: Seq<Option<BoundSet>>, r: Seq<BoundSet>) requires conj_post(s, r), r.len() == 0, has_some(s, s.len() as int) ensures false {}
+pub proof fn canary_rel_minv(bs: BoundSet, r: Option<Version>) requires bs_wf(bs), minv_post(bs, r), r is Some ensures false {}
+pub proof fn canary_rel_minv_none(bs: BoundSet, r: Option<Version>) requires bs_wf(bs), minv_post(bs, r), r is None ensures false {}
+pub proof fn canary_rel_shape(r: Option<BoundSet>, c: CSet) requires shape_ok_c(r, c), r is Some ensures false {}
+pub proof fn canary_rel_repr(bs: BoundSet, cs: Seq<KCmp>) requires bs_wf(bs), repr(bs, cs), cs.len() == 2 ensures false {}
+// (3) one deliberately false statement per spec file: the specs are not so weak that anything follows
+pub proof fn canary_spec_order_symmetric(a: Version, b: Version) ensures ver_cmp(a, b) == ver_cmp(b, a) {}
+pub proof fn canary_spec_order_build_matters(a: Version, b: Version) requires key(a) == key(b) ensures a.build@ == b.build@ {}
+pub proof fn canary_spec_bound_within_always(bs: BoundSet, v: VKey) requires bs_wf(bs) ensures within(bs, v) {}
+pub proof fn canary_spec_bound_gate_always(bs: BoundSet, v: VKey) requires bs_wf(bs), within(bs, v) ensures sat(bs, v) {}
+pub proof fn canary_spec_range_inter_is_union(a: Range, b: Range, r: Option<Range>, v: VKey) requires rinter_post(a, b, r), rwithin(a, v) ensures r matches Some(x) && rwithin(x, v) {}
+pub proof fn canary_spec_range_diff_keeps_b(a: Range, b: Range, r: Option<Range>, v: VKey) requires rdiff_post(a, b, r), rwithin(a, v) ensures r matches Some(x) && rwithin(x, v) {}
+pub proof fn canary_spec_npm_sat_always(cs: Seq<KCmp>, v: VKey) requires wfk(v) ensures npm_sat(cs, v) {}
+pub proof fn canary_spec_npm_caret_is_tilde(p: Partial) requires wf_partial(p) ensures npm_caret_c(p) == npm_tilde_c(p) {}
+pub proof fn canary_spec_repr_trivial(bs: BoundSet, cs: Seq<KCmp>) requires bs_wf(bs) ensures repr(bs, cs) {}
+pub proof fn canary_spec_diff_none(a: VKey, b: VKey) ensures diff_spec(a, b) is None {}
+pub proof fn canary_spec_diff_major_only(a: VKey, b: VKey) requires kcmp(a, b) != Ordering::Equal ensures diff_spec(a, b) == Some(VersionDiff::Major) {}
+pub proof fn canary_spec_minv_any(bs: BoundSet, m: Version) requires bs_wf(bs) ensures minv_post(bs, Some(m)) {}
+pub proof fn canary_spec_conj_any(s: Seq<Option<BoundSet>>) ensures conj_post(s, Seq::<BoundSet>::empty()) {}
+pub proof fn canary_spec_small_always(bs: BoundSet) requires bs_wf(bs) ensures bs_small(bs) {}
